@@ -39,4 +39,6 @@ def run(ctx, rep):
     rep.run(RI.rule_roles, ctx, rep, "T11")
     # T12: classdef, collector, clean-up and RTTI entry exist for the same set of classes: one ignore key at every site (= C15 X1)
     rep.run(RM.rule_one_ignore_key, ctx, rep, "T12")
+    rep.run(RM.rule_base_class_spelling, ctx, rep, "T13")
+    rep.run(RM.rule_every_element_kind_is_wrapped_on_every_path, ctx, rep, "T14")
     rep.run(RF.rule_locals_defined, ctx, rep, "U1", packages=("gtwrap/matlab_wrapper",), min_functions=3)
